@@ -134,6 +134,46 @@ def hidden_boot_history(rng, cfg):
     return ops, sizes, rp
 
 
+def _tree_summary(root):
+    dirs, files = {}, {}
+    stack = [(root, '')]
+    while stack:
+        node, prefix = stack.pop()
+        for c in node.children:
+            nm = c.name if isinstance(c.name, str) else c.name.decode('latin-1')
+            p = prefix + '/' + nm
+            ln = sum(e[1] for e in c.extents) if c.extents else 0
+            if c.is_dir:
+                dirs[p] = ln
+                stack.append((c, p))
+            else:
+                files[p] = ln
+    dirs['/'] = sum(e[1] for e in root.extents) if root.extents else 0
+    return dirs, files
+
+
+def _only_directory_slack(a, b):
+    """b (add ... rm_eltorito) differs from a (never had El Torito) only by spare directory blocks: no boot record, the same
+    names and file lengths in every hierarchy, directories at least as long, and the image longer by exactly those blocks"""
+    if a.rd is None or b.rd is None or b.rd.eltorito is not None:
+        return False
+    extra = 0
+    for ra, rb in ((a.rd.iso_root, b.rd.iso_root), (a.rd.joliet_root, b.rd.joliet_root)):
+        if (ra is None) != (rb is None):
+            return False
+        if ra is None:
+            continue
+        da, fa = _tree_summary(ra)
+        db, fb = _tree_summary(rb)
+        if fa != fb or set(da) != set(db):
+            return False
+        for p in da:
+            if db[p] < da[p] or (db[p] - da[p]) % 2048:
+                return False
+            extra += db[p] - da[p]
+    return extra > 0 and len(b.img) - len(a.img) == extra
+
+
 def removal_oracle(ctx, cfg, ops, sizes):
     """add_eltorito ... rm_eltorito leaves exactly the image of the same history without El Torito"""
     base = [o for o in ops if o['k'] not in ('add_eltorito', 'add_eltorito_section', 'rm_eltorito')]
@@ -152,6 +192,12 @@ def removal_oracle(ctx, cfg, ops, sizes):
     if a.img != b.img:
         d = sysimg.first_diff(a.img, b.img)
         sysimg.decode(a)
+        sysimg.decode(b)
+        if _only_directory_slack(a, b):
+            # the catalog's directory was exactly full: adding its record opened a new directory block, and remove_child keeps
+            # one spare block (Model/AccountBoot.v: ab_add_rm_eltorito_inverse_refuted / _partial); nothing of El Torito is left
+            ctx.count('rm-eltorito:only-directory-slack')
+            return None
         return ('rm-eltorito-leaves-traces', 'adding and removing El Torito does not give back the image without it: first difference '
                 'at byte %d (%s), lengths %d / %d' % (d, sysimg.attribute(a.rd, d), len(a.img), len(b.img)))
     return None
